@@ -5,7 +5,7 @@ import random
 import threading
 
 from .. import bind_repo
-from ..world import World, execute, cleanup, HarnessAbort
+from ..world import World, execute, cleanup, HarnessAbort, SHARED_CONDITIONS
 from ..seam import Seam
 from ..runner import Outcome, digest
 from ..threads import Baton, line_tracer
@@ -87,7 +87,7 @@ def generate(rng, tier):
         elif kind == "till":
             actors = [_simple_actor(rng, "r%d" % i, length=rng.randint(1, 4))
                       for i in range(rng.randint(1, 3))]
-            scenario = {"start": start, "till": start + rng.choice([0, 0.25, 0.75, 1, 2.5, 50]),
+            scenario = {"start": start, "till": start + rng.choice([0, 0.25, 0.75, 1, 2.5, 50, -1.5]),
                         "roots": "direct", "resources": {}, "actors": actors}
         else:
             actors = [_simple_actor(rng, "r%d" % i, length=rng.randint(1, 3))
@@ -103,6 +103,14 @@ def generate(rng, tier):
             host["ops"].insert(rng.randint(0, len(host["ops"])), nested)
             scenario = {"start": start, "roots": "direct", "resources": {}, "actors": actors}
         runs.append({"kind": kind, "scenario": scenario})
+    oks = [run for run in runs if run["kind"] == "ok"]
+    if oks and rng.random() < 0.4:
+        # replications: the same program again, with its time conditions being the very same
+        # objects (a module-level `DEADLINE = time >= 10` used by every replication)
+        again = rng.choice(oks)
+        again["scenario"]["share_conditions"] = True
+        runs.insert(rng.randint(runs.index(again) + 1, len(runs)),
+                    {"kind": "ok", "scenario": copy.deepcopy(again["scenario"])})
     return {"property": ID, "mode": "history", "runs": runs, "scenario": {"actors": []},
             "plan": [], "config": {}}
 
@@ -155,6 +163,7 @@ def run_history(case):
     seen = _outside()
     if seen is not None:
         bad("simulation-visible-outside", "time.now == %r before any run" % (seen,))
+    SHARED_CONDITIONS.clear()
     sim_time = 0.0
     ticks = 0
     for index, run in enumerate(case["runs"]):
@@ -186,7 +195,7 @@ def _check_run(bad, index, kind, scenario, rec):
     starts = [ev for ev in rec.trace if ev[4] == "start" and ev[3] in roots]
     first_bad = next((ev for ev in rec.trace if ev[4] in ("raise",) or
                       (ev[4] == "end" and _ret_of(scenario, ev[3]) is not None)), None)
-    if kind != "till" or scenario["till"] != start:
+    if kind != "till" or scenario["till"] > start:      # till <= start: nothing may run at all
         order = [ev[3] for ev in starts]
         if first_bad is None or len(order) == len(roots):
             if order != roots[:len(order)] or (first_bad is None and len(order) != len(roots)):
@@ -432,7 +441,56 @@ F13_SCENARIO = {"start": 0, "till": 5, "roots": "direct", "resources": {}, "acto
     {"name": "r0", "ops": [{"op": "sleep", "d": 1}], "ret": 17}]}
 
 
+def _probe_till_swallows_cascade():
+    """F29: a root activity that ends with the TaskCancelled of a task it awaited - run() raises
+    it, run(till=) returns normally."""
+    def program():
+        async def victim():
+            await usim.eternity
+
+        async def root():
+            async with usim.Scope() as scope:
+                task = scope.do(victim())
+                task.cancel("gone")
+                await task
+        return root()
+
+    outcomes = []
+    for kwargs in ({}, {"till": 50}):
+        try:
+            usim.run(program(), **kwargs)
+            outcomes.append(None)
+        except usim.TaskCancelled as err:
+            outcomes.append(type(err).__name__)
+    return outcomes == ["TaskCancelled", None]
+
+
+def _probe_till_promotes_later_failure():
+    """F30: two roots fail in one time step, the second with a privileged exception - run()
+    raises the first, run(till=) the privileged one."""
+    def programs():
+        async def first():
+            raise KeyError("first")
+
+        async def second():
+            raise AssertionError("second")
+        return first(), second()
+
+    outcomes = []
+    for kwargs in ({}, {"till": 50}):
+        try:
+            usim.run(*programs(), **kwargs)
+            outcomes.append(None)
+        except (KeyError, AssertionError) as err:
+            outcomes.append(type(err).__name__)
+    return outcomes == ["KeyError", "AssertionError"]
+
+
 def probe_finding(finding):
+    if finding["id"] == "F29":
+        return _probe_till_swallows_cascade()
+    if finding["id"] == "F30":
+        return _probe_till_promotes_later_failure()
     if finding["id"] != "F13":
         return False
     rec = execute({"property": ID, "scenario": F13_SCENARIO, "plan": [], "config": {}})
